@@ -38,7 +38,7 @@ RULE = ('a case is one HISTORY: a store of 2..6 small Frames (8 kinds: string/in
         'chosen block layout) written with Bus.to_<format>, opened with Bus.from_<format>(max_persist), then a list of public operations; '
         'after every operation the result (Frames identified by the canonical literal of what was written, labels, exception class) and '
         'bus.status["loaded"] are compared with M and with S evaluated in Coq on the same history. Strata: exhaustive (all histories of '
-        'length 3 quick / 4 thorough over a fixed 10-operation alphabet x max_persist None,1,2,3), random (online generation from the '
+        'length 3 x max_persist None,1,2 quick / length 4 x None,1,2,3 thorough, over a fixed 10-operation alphabet on 3 labels), random (online generation from the '
         'current labels incl. derived Buses), stale (file touched/rewritten/deleted at every point), malformed keys, kernel (private '
         '_loaded/_last_accessed and the read calls reaching the store), Bus._store_reader against a stub, write/reopen round trip with full '
         'Frame literals, one narrow stratum per known finding. Non-trivial: max_persist active or the stale file actually refused a read; '
@@ -426,11 +426,19 @@ UNKNOWN_LABEL = 'zz'        # a label no store has (rank 99)
 # frame kinds -> (index_depth, columns_depth, include_index): the StoreConfig needed to read them back
 KIND_CFG = {
     'str_idx': (1, 1, True), 'mixed': (1, 1, True), 'int_idx': (1, 1, True), 'one': (1, 1, True), 'wide': (1, 1, True),
+    'int_cols': (1, 1, True),
     'auto': (0, 1, False), 'ih_idx': (2, 1, True), 'ih_cols': (1, 2, True),
 }
 KINDS_BY_CLASS = {}
 for _k, _c in KIND_CFG.items():
     KINDS_BY_CLASS.setdefault(_c, []).append(_k)
+
+
+def kinds_pool(fmt, pool=None):
+    '''Frame kinds a format can hold faithfully: SQL column names are text, so integer column labels are kept out of
+    sqlite stores everywhere except the dedicated round-trip case (known finding C17-sqlite-int-column-labels).'''
+    pool = list(KIND_CFG) if pool is None else list(pool)
+    return [k for k in pool if not (fmt == 'sqlite' and k == 'int_cols')]
 
 
 def _rank(label):
@@ -459,6 +467,8 @@ def make_frame(kind, label, v, rng):
         return sf.Frame.from_records([(v, rng.randrange(-8, 8) / 2)], columns=('x', 'y'), index=(10,), name=label)
     if kind == 'one':
         return sf.Frame.from_records([(v,)], columns=('x',), index=('p',), name=label)
+    if kind == 'int_cols':
+        return sf.Frame.from_records([(v, r()), (r(), r())], columns=(7, 8), index=('p', 'q'), name=label)
     if kind == 'wide':
         cols = [np.array([v, r()])] + [np.array([r(), r()]) for _ in range(3)]
         layouts = list(zoo.layouts_for([c.dtype for c in cols]))
@@ -570,7 +580,9 @@ class Env:
     def describe(self):
         return {'format': self.fmt, 'labels': self.order, 'kinds': [self.kinds[l] for l in self.order],
                 'config': 'none' if self.cfg is None else ('per-label map' if self.mapped else 'one StoreConfig'),
-                'frames': {l: repr(self.frames[l].to_pairs()) [:200] for l in self.order}}
+                'frames': {l: {'index': [str(x) for x in lit.labels(self.frames[l].index)],
+                               'columns': [str(x) for x in lit.labels(self.frames[l].columns)],
+                               'values': self.frames[l].values.tolist()} for l in self.order}}
 
 
 # ---------------------------------------------------------------------------------- operations
@@ -907,8 +919,10 @@ class Work:
     """Per-run temporary directory (removed when the generator is closed or exhausted)."""
 
     def __init__(self):
+        import atexit
         self.tmp = tempfile.mkdtemp(prefix='sfv_c17_')
         self.n = 0
+        atexit.register(self.close)          # also when the generator is abandoned before it is exhausted
 
     def name(self, stem):
         self.n += 1
@@ -918,9 +932,9 @@ class Work:
         shutil.rmtree(self.tmp, ignore_errors=True)
 
 
-def uniform_kinds(rng, n, cls=None):
+def uniform_kinds(rng, n, fmt, cls=None):
     cls = cls or rng.choice(list(KINDS_BY_CLASS))
-    return [rng.choice(KINDS_BY_CLASS[cls]) for _ in range(n)]
+    return [rng.choice(kinds_pool(fmt, KINDS_BY_CLASS[cls])) for _ in range(n)]
 
 
 def roundtrip_cases(ctx, work):
@@ -932,7 +946,12 @@ def roundtrip_cases(ctx, work):
             n = rng.randrange(1, 6)
             order = rng.sample([_label(r) for r in range(8)], n)
             mapped = fmt != 'zip_pickle' and rng.random() < .6
-            kinds = [rng.choice(list(KIND_CFG)) for _ in range(n)] if (mapped or fmt == 'zip_pickle') else uniform_kinds(rng, n)
+            kinds = [rng.choice(kinds_pool(fmt)) for _ in range(n)] if (mapped or fmt == 'zip_pickle') else uniform_kinds(rng, n, fmt)
+            tags = {'stratum': 'roundtrip', 'format': fmt}
+            if fmt == 'sqlite' and i == 0:
+                kinds[0] = 'int_cols'                # by construction: integer column labels in an SQLite store
+                mapped = True
+                tags['finding'] = 'C17-sqlite-int-column-labels'
             env = Env(work.tmp, work.name('rt'), fmt, order, kinds, mapped, rng)
             ctx.count(f'roundtrip:{fmt}', f'roundtrip:n={n}', *(f'kind:{k}' for k in set(kinds)))
             mp = rng.choice([None, 1, 2, n])
@@ -950,7 +969,7 @@ def roundtrip_cases(ctx, work):
             yield Case('api:roundtrip', {'store': env.describe(), 'max_persist': mp,
                                          'call': f'Bus.from_frames(frames).to_{fmt}(fp, config); Bus.from_{fmt}(fp, config, max_persist).items()',
                                          'labels_read': got_labels},
-                       m=term, s=term, py_fail=py_fail, tags={'stratum': 'roundtrip', 'format': fmt})
+                       m=term, s=term, py_fail=py_fail, tags=tags)
     # optional formats: recorded, exercised only when the library is there
     for fmt, (module, ext) in OPTIONAL.items():
         try:
@@ -980,7 +999,7 @@ def exhaustive_cases(ctx, work):
     rng = ctx.rng
     length = 3 if ctx.tier == 'quick' else 4
     env = Env(work.tmp, work.name('exh'), 'zip_pickle', EXH_ORDER, ['str_idx', 'mixed', 'one'], False, rng)
-    for mp in (None, 1, 2, 3):
+    for mp in ((None, 1, 2) if ctx.tier == 'quick' else (None, 1, 2, 3)):
         for hist in itertools.product(EXH_ALPHABET, repeat=length):
             ops, trace = run_history(env, mp, list(hist))
             ctx.count(f'exhaustive:mp={mp}')
@@ -1090,7 +1109,7 @@ def random_env(rng, work, fmt, n=None, mapped=None, stem='env'):
     order = rng.sample([_label(r) for r in range(9)], n)
     if mapped is None:
         mapped = fmt != 'zip_pickle' and rng.random() < .5
-    kinds = [rng.choice(list(KIND_CFG)) for _ in range(n)] if (mapped or fmt == 'zip_pickle') else uniform_kinds(rng, n)
+    kinds = [rng.choice(kinds_pool(fmt)) for _ in range(n)] if (mapped or fmt == 'zip_pickle') else uniform_kinds(rng, n, fmt)
     return Env(work.tmp, work.name(stem), fmt, order, kinds, mapped, rng)
 
 
